@@ -56,7 +56,7 @@ fn worker(id: &str, tier: Tier, k: u64, n: u64, out: &str) {
     let p = props::registry().into_iter().find(|p| p.id == id).unwrap_or_else(|| usage());
     drive::silence_panics();
     let budget = tier.pick(p.budget_s.0, p.budget_s.1);
-    crumb::install(&format!("{out}.crumb"), 30);
+    crumb::install(&format!("{out}.crumb"), tier.pick(10, 30));
     let mut c = Ctx::new(id, tier, k, n, seed(), budget);
     let r = std::panic::catch_unwind(std::panic::AssertUnwindSafe(|| (p.run)(&mut c)));
     if let Err(e) = r {
@@ -246,7 +246,7 @@ fn check(id: &str, tier: Tier) -> i32 {
     unknown.sort_by_key(|v| (v.size, v.sig.clone()));
 
     // replays (re-validated: the smallest case of each signature is re-executed by `jv replay`)
-    let rdir = root.join("replays").join(id);
+    let rdir = std::env::var("VERIF_REPLAY_DIR").map(std::path::PathBuf::from).unwrap_or_else(|_| root.join("replays")).join(id);
     let _ = std::fs::remove_dir_all(&rdir);
     let mut lines = Vec::new();
     for v in unknown.iter().take(20) {
@@ -305,7 +305,7 @@ fn check(id: &str, tier: Tier) -> i32 {
         "wall_s": wall,
         "violations": n_unknown,
     });
-    let edir = root.join("evidence");
+    let edir = std::env::var("VERIF_EVIDENCE_DIR").map(std::path::PathBuf::from).unwrap_or_else(|_| root.join("evidence"));
     let _ = std::fs::create_dir_all(&edir);
     if let Err(e) = std::fs::write(edir.join(format!("{id}.json")), serde_json::to_vec_pretty(&evidence).unwrap()) {
         eprintln!("MACHINERY: cannot write evidence: {e}");
